@@ -97,7 +97,10 @@ def _local_class():
 
 LocalMarker = _local_class()
 PARAM_ANN = {"none": "", "int": ": int", "class": ": Marker", "localclass": ": LocalMarker", "strlit": ": 'str'", "generic": ": typing.List[int]",
-             "builtin-generic": ": list[int]", "optional": ": typing.Optional[Marker]"}
+             "builtin-generic": ": list[int]", "optional": ": typing.Optional[Marker]",
+             # typing special forms that carry no __origin__
+             "noreturn": ": typing.NoReturn", "anystr": ": typing.AnyStr", "bare-optional": ": typing.Optional", "literalstring": ": typing.LiteralString",
+             "never": ": typing.Never", "any": ": typing.Any", "callable": ": typing.Callable[[int], str]"}
 RET_ANN = {"absent": "", "int": " -> int", "none": " -> None", "strlit": " -> 'str'", "optional": " -> typing.Optional[int]",
            "generic": " -> typing.Dict[str, int]", "class": " -> Marker", "localclass": " -> LocalMarker"}
 
@@ -112,6 +115,9 @@ def signatures(tier):
             continue
         for pann, rann in anns:
             out.append({"npos": npos, "dflt": dflt, "star": star, "nkw": nkw, "kwd": kwd, "starkw": starkw, "pann": pann, "rann": rann})
+            if (star or starkw) and pann != "none":
+                # the variadic parameters carry the annotation too
+                out.append({"npos": npos, "dflt": dflt, "star": star, "nkw": nkw, "kwd": kwd, "starkw": starkw, "pann": pann, "rann": rann, "starann": True})
     return out
 
 
@@ -124,7 +130,7 @@ def make_func(sig, name="meth"):
             p += " = None"
         parts.append(p)
     if sig["star"]:
-        parts.append("*rest")
+        parts.append("*rest" + (ann if sig.get("starann") else ""))
     elif sig["nkw"]:
         parts.append("*")
     for i in range(sig["nkw"]):
@@ -133,7 +139,7 @@ def make_func(sig, name="meth"):
             p += " = None"
         parts.append(p)
     if sig["starkw"]:
-        parts.append("**extra")
+        parts.append("**extra" + (ann if sig.get("starann") else ""))
     src = "def %s(%s)%s:\n    return 0\n" % (name, ", ".join(parts), RET_ANN[sig["rann"]])
     ns = {"typing": typing, "Marker": Marker, "LocalMarker": LocalMarker}
     exec(src, ns)
